@@ -94,7 +94,24 @@ class Ctx:
             rc, out = sh("go build -tags verif -o %s/harness ./cmd/harness" % BIN, cwd=GO, timeout=1200)
             if rc != 0:
                 return False, "building harness (with -tags verif) against /repo failed:\n" + out
+            if not os.path.exists(os.path.join(BIN, "modelrun")) or self._stale_modelrun():
+                ok, out = self.coq_make_nolock(["model/Engine.vo", "model/EngineSpec.vo"])
+                if not ok:
+                    return False, "building the Coq model failed:\n" + out
+                rc, out = sh(os.path.join(VERIF, "ocaml", "build.sh"), timeout=900)
+                if rc != 0:
+                    return False, "extraction / OCaml build failed:\n" + out
         return True, ""
+
+    def _stale_modelrun(self):
+        mr = os.path.getmtime(os.path.join(BIN, "modelrun"))
+        srcs = [os.path.join(VERIF, "ocaml", "modelrun.ml"), os.path.join(COQ, "extract", "Extract.v")]
+        srcs += [os.path.join(COQ, "model", f) for f in os.listdir(os.path.join(COQ, "model")) if f.endswith(".v")]
+        return any(os.path.getmtime(f) > mr for f in srcs)
+
+    def coq_make_nolock(self, targets, timeout=1500):
+        rc, out = sh(["timeout", str(timeout), os.path.join(COQ, "mk.sh")] + list(targets), timeout=timeout + 30)
+        return rc == 0, out
 
     def regen(self, what="all"):
         with Lock():
